@@ -1,0 +1,37 @@
+//go:build verif
+
+package hub
+
+import "github.com/enbility/ship-go/api"
+
+// Verification hooks (build tag "verif" only): inject connection objects into the registry
+// and read the registry and the connection attempt bookkeeping for model-based replay.
+
+// VerifRegisterConnection registers a connection the way ServeHTTP / connectFoundService do
+func (h *Hub) VerifRegisterConnection(c api.ShipConnectionInterface) {
+	h.registerConnection(c)
+}
+
+// VerifRegistry returns a copy of the connection registry
+func (h *Hub) VerifRegistry() map[string]api.ShipConnectionInterface {
+	h.muxCon.Lock()
+	defer h.muxCon.Unlock()
+
+	result := make(map[string]api.ShipConnectionInterface, len(h.connections))
+	for ski, c := range h.connections {
+		result[ski] = c
+	}
+	return result
+}
+
+// VerifAttempt returns the connection attempt counter of a SKI (-1 if none) and if an attempt is running
+func (h *Hub) VerifAttempt(ski string) (int, bool) {
+	h.muxConAttempt.Lock()
+	defer h.muxConAttempt.Unlock()
+
+	counter, exists := h.connectionAttemptCounter[ski]
+	if !exists {
+		counter = -1
+	}
+	return counter, h.connectionAttemptRunning[ski]
+}
